@@ -32,6 +32,9 @@ def nontrivial(request, impl):
         return "0a" in parts[2] or "0d" in parts[2]
     if proto == "num":
         return parts[1].startswith("2e")
+    if proto == "trivia":
+        # non-trivial: at least one comment token
+        return any(x[0] in "LBS" for x in parts[2].split(";"))
     if proto == "sortreq":
         # non-trivial: sorting enabled and at least two require/GetService items
         return parts[2] == "1" and (parts[3].count(":r:") + parts[3].count(":g:")) >= 2
@@ -166,3 +169,33 @@ PROPS["C12"] = {
 }
 PROPS["C09"]["hx"] = [["c08"], ["c12"]]
 PROPS["C08"]["hx"] = [["c08"], ["c12"]]
+
+TRIVIA_RULE = ("ring 2 (`trivia`): seeded leading-trivia sequences (blank lines, indentation, line comments with trailing blanks / interior CR / non-ASCII, block comments of level 0-2 with LF, CRLF and mixed interiors) in LF and CRLF files, formatted under both line_endings; the bytes the real formatter puts in front of the token must equal the model's rendering of load_token_trivia. distinct_nontrivial = requests with at least one comment. ")
+
+PROPS["C03"] = {
+    "lean_modules": ["StyluaModel.Props.C03"],
+    "theorem_prefix": "C03_",
+    "required_theorems": ["C03_load", "C03_text_line", "C03_text_block", "C03_paren_partial", "C03_sort_perm"],
+    "hx": [["c03"], ["pipe"], ["slots"], ["c12"]],
+    "level": "proof",
+    "level_text": "Proof, partial: load_token_trivia (through which every token's trivia passes) keeps every comment once, in order, with kind and level, text normalised only by trim_end / newline conversion (theorems for lists of any length); the parenthesis transplant carries a sublist (full preservation is proven false of the code: counterexample theorem); require sorting is a permutation. That every construct routes every token through these functions is carried by the comment-slot enumeration (every token gap of 46 constructs) and the corpus census, whose unchanged-tree failures are listed exactly.",
+    "level_note": "Trusted: Lean kernel; Model/Trivia.lean tied by the `trivia` correspondence (~1.4e4 requests per run); census oracle uses full_moon's tokenizer on input and output. Most transplant sites (semicolons, commas, hang_binop, call sugar, table keys) have no model yet: they are covered by ring 3 only.",
+    "technique": "Lean 4 proofs on the trivia loader + comment-slot enumeration + census oracle",
+    "rule": TRIVIA_RULE + PIPE_RULE + SLOT_RULE,
+    "trusted_base": ["comment census: multiset of (kind, level, text) with line comments trimmed at the end and CRLF->LF inside block comments"],
+    "assumptions": ["block-comment theorem assumes no lone carriage return in the comment"],
+}
+
+PROPS["C10"] = {
+    "lean_modules": ["StyluaModel.Props.C10"],
+    "theorem_prefix": "C10_",
+    "required_theorems": ["C10_created_ws", "C10_line_comment_clean", "C10_block_lf", "C10_block_crlf"],
+    "hx": [["c03"], ["pipe"], ["slots"]],
+    "level": "proof",
+    "level_text": "Proof, partial: the trivia loader never copies input whitespace (every whitespace token it returns is a created newline / indent / single space), a formatted line comment or shebang never ends in whitespace (no stray CR from CRLF input), block-comment and long-string interiors contain only the configured ending (given no lone CR). That all ~150 sites that build whitespace use these constructors is carried by the whitespace scan of every output of the closed set (corpus in LF/CRLF/mixed x both endings x both indent types), not by a theorem.",
+    "level_note": "Trusted: Lean kernel; Model/Trivia.lean tied by the `trivia` correspondence; scan masks string-literal contents (line endings) and block-comment interiors (indentation), per the property's exclusions; files with ignore directives are excluded from the scan.",
+    "technique": "Lean 4 proofs on whitespace constructors and comment text + whitespace scan oracle",
+    "rule": TRIVIA_RULE + PIPE_RULE + SLOT_RULE,
+    "trusted_base": [],
+    "assumptions": ["indentation clause: block-comment interiors are literal text"],
+}
